@@ -180,6 +180,11 @@ class _Expand(ast.NodeTransformer):
     def visit_Call(self, node):
         self.generic_visit(node)
         f = node.func
+        if isinstance(f, ast.Attribute) and f.attr in ("values", "keys") and isinstance(f.value, ast.Dict) and not node.args \
+                and not node.keywords and f.value.keys and all(k is not None for k in f.value.keys):
+            # the values / keys of a literal table are the tuple of them
+            elts = list(f.value.values if f.attr == "values" else f.value.keys)
+            return ast.fix_missing_locations(ast.copy_location(ast.Tuple(elts=elts, ctx=ast.Load()), node))
         if isinstance(f, ast.Attribute) and f.attr == "get" and isinstance(f.value, ast.Dict) and 1 <= len(node.args) <= 2 \
                 and not node.keywords and f.value.keys and all(isinstance(k, ast.Constant) for k in f.value.keys) \
                 and all(isinstance(v, (ast.Name, ast.Attribute, ast.Constant)) for v in f.value.values) \
